@@ -60,6 +60,13 @@ RemoveTarget(n) ==
   /\ Touch(editing, LAMBDA x : [x EXCEPT !.names = @ \ {n}, !.sigs = {}])
   /\ dirty' = TRUE /\ Log([op |-> "remove_target", role |-> editing, name |-> n])
   /\ UNCHANGED <<editing, signed>>
+\* clear_targets: every target of the role being edited goes (only offered when there is one)
+ClearTargets ==
+  /\ Can /\ editing # "none"
+  /\ (IF editing = Top THEN top.names ELSE role[editing].names) # {}
+  /\ Touch(editing, LAMBDA x : [x EXCEPT !.names = {}, !.sigs = {}])
+  /\ dirty' = TRUE /\ Log([op |-> "clear_targets", role |-> editing])
+  /\ UNCHANGED <<editing, signed>>
 BumpVersion ==
   /\ Can /\ editing # "none"
   /\ Touch(editing, LAMBDA x : [x EXCEPT !.version = @ + 1, !.sigs = {}])
@@ -136,7 +143,7 @@ AllKeys == {101, 102, TopKey} \cup DKeys
 KeySets == {AllKeys, AllKeys \ {TopKey}, {101, 102, TopKey}} \cup {AllKeys \ {k} : k \in DKeys}
 Next ==
   \/ \E n \in Names : AddTarget(n) \/ RemoveTarget(n)
-  \/ BumpVersion
+  \/ BumpVersion \/ ClearTargets
   \/ \E d \in DRoles, ks \in (SUBSET DKeys) \ {{}}, thr \in 1..2, m \in SUBSET Names : DelegateRole(d, ks, thr, m)
   \/ \E ks \in KeySets : SignEditor(ks) \/ Sign(ks) \/ SignRefused(ks) \/ SignEditorRefused(ks, AllKeys)
   \/ \E r \in DRoles \cup {Top} : ChangeTo(r)
